@@ -155,6 +155,9 @@ func init() {
 					variant = append(variant, "dict=fifo")
 				}
 				env := []string{"GOMAXPROCS=" + []string{"1", "2", "16", "4"}[i%4]}
+				if i%8 == 3 || i%8 == 7 { // the -o runs: temporary files, if a command uses any, live on another file system
+					env = append(env, "TMPDIR=/dev/shm")
+				}
 				variant = append(variant, env[0])
 				bin := c.Bin
 				if !c.quick() && i%10 == 9 {
@@ -178,7 +181,7 @@ func init() {
 						stdin = []byte(rq.stdin)
 						variant = append(variant, "dash")
 					case 2, 4:
-						f := c.writeTemp(fmt.Sprintf("in%d", nextID()), rq.stdin)
+						f := c.writeTemp(fmt.Sprintf("in%d $HOME ~t ${X}", nextID()), rq.stdin)
 						tmp = append(tmp, f)
 						args = append(args, f)
 						variant = append(variant, "FILE")
